@@ -73,10 +73,6 @@ def analyse(chk, prog, cfg, fn, kind, facts):
     for w in want:
         fact("R1.first_match", f"first-match selection over {w} in registration order", w in sels and sels[w]["direct"],
              f"no `iter().find(..)`-style first-match selection over {w} (found selections over {sorted(str(k) for k in sels)})")
-    for w in want:
-        if w in sels:
-            fact("R1.first_match", f"exactly one selection over {w}", len(sels[w]["all"]) == 1,
-                 f"{len(sels[w]['all'])} selections over {w}: the lookup order host sub-app -> default is not a single pass")
     extra = [k for k in sels if k not in want]
     fact("R1.first_match", "no selection over another vector", not extra, f"route lookup also selects over {extra}")
     if not all(w in sels for w in want):
